@@ -237,6 +237,16 @@ def run(ctx):
             _merge(by[k], s[k] or {})
         samples += s["samples"] or []
         drift_samples += s["drift_samples"] or []
+    # the same lookups asked from other positions (zero hash, subtrees below the root, a foreign hash)
+    npos = 0
+    for _, s_, _, _, _ in runs:
+        npos += s_.get("position_requests", 0)
+        for pp in (s_.get("position_problems") or [])[:3]:
+            vlib.report(ctx, "proof produced for a lookup from position %s on %s: %s (contents %s, key %s)" % (
+                pp["position"][:16], pp["backend"], pp["problem"][:300], json.dumps(pp["m"])[:200], pp["key"]), pp, {"kind": "position"})
+    if not npos:
+        raise vlib.Infra("no position-variant lookups were made")
+    ctx.coverage.update(position_variant_lookups=npos)
     ndrift = (tot["builder_drift"] + tot["verdict_drift"] + tot["remote_drift"] + tot["inapplicable"] + tot["backend_differ"]
               + tot["shape_drift"] + tot["determined_drift"])
     for dsm in drift_samples[:6]:
